@@ -16,7 +16,7 @@ func TestMain(m *testing.M) {
 
 func genCase(t *rapid.T) Case {
 	c := Case{Limit: rapid.SampledFrom([]int{64, 256, 4096, 1 << 16}).Draw(t, "limit")}
-	c.Auth = script.AuthSpec{User: rapid.SampledFrom([]string{"alice", "", "bob", "é"}).Draw(t, "auth-user"), Pass: rapid.SampledFrom([]string{"secret", "", "pässword", "p w"}).Draw(t, "auth-pass"), FailPass: "boom", FailErr: gen.SmallErr().Draw(t, "fail-err")}
+	c.Auth = script.AuthSpec{User: rapid.SampledFrom([]string{"alice", "", "bob", "é"}).Draw(t, "auth-user"), Pass: rapid.SampledFrom([]string{"secret", "", "pässword", "p w"}).Draw(t, "auth-pass"), FailPass: "boom", PanicPass: "kaboom", FailErr: gen.SmallErr().Draw(t, "fail-err")}
 	c.Auth.FailTrue = rapid.Bool().Draw(t, "validator-fails-with-true")
 	c.Neighbour = rapid.SampledFrom([]string{"", "", "", "before", "between", "between"}).Draw(t, "neighbour")
 	c.NMW = rapid.IntRange(0, 3).Draw(t, "nmw")
@@ -44,7 +44,7 @@ func genCase(t *rapid.T) Case {
 			c.Password = "x"
 		}
 	case 5:
-		c.Password = "boom"
+		c.Password = rapid.SampledFrom([]string{"boom", "kaboom"}).Draw(t, "failing-password")
 	case 6:
 		c.Password = ""
 	default:
